@@ -128,6 +128,105 @@ End StageB.
 Definition pipeline (PA : dlang -> aparams) (B : bparams) (W k : nat) (files : list afile) : list viol :=
   report B k (all_rows PA W files).
 
+(* ------------------------------------------------------------------ stage C: suppression *)
+(* violation_generator.py _filter_ignored (dry.ignore path patterns), _filter_inline_ignored (inline_ignore.py:
+   `# dry: ignore-block` / `# dry: ignore-next`), _filter_shared_ignored (linter_config/ignore.py: thailint
+   ignore-file / ignore / ignore-next-line / ignore-start .. ignore-end).  Which directive a source line carries is
+   decided on the comment text for a fixed table of spellings (the spelling -> directive relation is property
+   C04's subject; here it is validated by correspondence for exactly these spellings). *)
+Inductive dkind := KDryBlock | KDryNext | KFile | KLine | KNextLine | KStart | KEnd.
+Definition dkind_eqb (a b : dkind) : bool :=
+  match a, b with
+  | KDryBlock, KDryBlock | KDryNext, KDryNext | KFile, KFile | KLine, KLine | KNextLine, KNextLine | KStart, KStart | KEnd, KEnd => true
+  | _, _ => false
+  end.
+
+Definition spellings : list (string * dkind) :=
+  [(" dry: ignore-block", KDryBlock); (" dry: ignore-next", KDryNext);
+   (" thailint: ignore-file dry", KFile); (" thailint: ignore-file[dry]", KFile);
+   (" thailint: ignore dry", KLine); (" thailint: ignore[dry]", KLine);
+   (" thailint: ignore-next-line[dry]", KNextLine);
+   (" thailint: ignore-start dry", KStart); (" thailint: ignore-end", KEnd)].
+
+Fixpoint lookup_spelling (t : string) (tbl : list (string * dkind)) : option dkind :=
+  match tbl with [] => None | (s, k) :: r => if String.eqb t s then Some k else lookup_spelling t r end.
+
+(* the dry: forms are searched behind a `#` only, so they exist in Python comments only *)
+Definition directive_of (l : dlang) (a : aline) : option dkind :=
+  if a_doc a then None else
+  match a_cmt a with
+  | CLine t => match lookup_spelling t spellings with
+               | Some KDryBlock => match l with DPy => Some KDryBlock | DTs => None end
+               | Some KDryNext => match l with DPy => Some KDryNext | DTs => None end
+               | r => r
+               end
+  | _ => None
+  end.
+
+Record sparams := {
+  s_block_off : nat; s_block_len : nat; s_next_off : nat;   (* (i + 1, min (i + 10) total) ; (i + 1, i + 1) *)
+  s_range_overlap : nat -> nat -> nat -> nat -> bool;       (* line end_line ign_start ign_end *)
+  s_viol_end : nat -> nat -> nat;                           (* start_line line_count *)
+  s_header_lines : nat }.
+
+(* (line number, directive, the line has no code) for every directive line of a file *)
+Fixpoint dirs_from (l : dlang) (n : nat) (ls : list aline) : list (nat * dkind * bool) :=
+  match ls with
+  | [] => []
+  | a :: rest => match directive_of l a with
+                 | Some k => (n, k, str_empty (a_code a)) :: dirs_from l (S n) rest
+                 | None => dirs_from l (S n) rest
+                 end
+  end.
+Definition file_dirs (f : afile) : list (nat * dkind * bool) := dirs_from (f_lang f) 1 (f_lines f).
+(* len(content.split("\n")) for the rendered text, which ends with a newline *)
+Definition total_lines (f : afile) : nat := S (List.length (f_lines f)).
+
+Section StageC.
+  Variable S : sparams.
+
+  Definition dir_suppresses (total line count : nat) (d : nat * dkind * bool) : bool :=
+    let '(i, k, _) := d in
+    match k with
+    | KDryBlock => s_range_overlap S line (s_viol_end S line count) (i + s_block_off S) (Nat.min (i + s_block_len S) total)
+    | KDryNext => s_range_overlap S line (s_viol_end S line count) (i + s_next_off S) (i + s_next_off S)
+    | KFile => i <=? s_header_lines S
+    | KLine => i =? line
+    | KNextLine => (1 <? line) && (i =? line - 1)
+    | KStart | KEnd => false
+    end.
+
+  (* _check_block_ignore: the state when the violation's line is reached *)
+  Fixpoint in_block (line : nat) (st : bool) (ds : list (nat * dkind * bool)) : bool :=
+    match ds with
+    | [] => st
+    | (i, k, empty) :: r =>
+      if line <=? i then st
+      else match k with
+           | KStart => in_block line (if empty then true else st) r
+           | KEnd => in_block line (if empty then false else st) r
+           | _ => in_block line st r
+           end
+    end.
+  Definition marker_at (line : nat) (ds : list (nat * dkind * bool)) : bool :=
+    existsb (fun d => let '(i, k, empty) := d in (i =? line) && empty && (dkind_eqb k KStart || dkind_eqb k KEnd)) ds.
+
+  Definition suppressed_in_file (f : afile) (line count : nat) : bool :=
+    let ds := file_dirs f in
+    existsb (dir_suppresses (total_lines f) line count) ds || (in_block line false ds && negb (marker_at line ds)).
+
+  Definition path_ignored (patterns : list string) (path : string) : bool := existsb (fun p => str_contains p path) patterns.
+
+  Definition suppressed (patterns paths : list string) (files : list afile) (fi line count : nat) : bool :=
+    path_ignored patterns (nth fi paths "") || suppressed_in_file (nth fi files {| f_lang := DPy; f_lines := [] |}) line count.
+
+  Definition v_suppressed (patterns paths : list string) (files : list afile) (v : viol) : bool :=
+    suppressed patterns paths files (v_file v) (v_line v) (v_count v).
+
+  Definition unsuppressed (patterns paths : list string) (files : list afile) (R : list viol) : list viol :=
+    filter (fun v => negb (v_suppressed patterns paths files v)) R.
+End StageC.
+
 (* ------------------------------------------------------------------ equality tests used by the judge *)
 Definition ref_eqb (a b : nat * nat * nat) : bool :=
   let '(f1, s1, e1) := a in let '(f2, s2, e2) := b in (f1 =? f2) && (s1 =? s2) && (e1 =? e2).
